@@ -74,6 +74,8 @@ func telChannelMask(sc *scenario) func(string) string {
 	return func(s string) string { return rep.Replace(s) }
 }
 
+var thoroughTier bool
+
 type scenarioOutcome struct {
 	nontrivial bool // without the policy the twins were distinguishable
 	points     int
@@ -126,7 +128,12 @@ func runScenario(sc *scenario, seed uint64, res *hx.Result, em *emitter, allPath
 			var tplsFor func(int, *node) []string
 			if pol == 0 && side == 0 {
 				tplsFor = func(i int, ctx *node) []string {
-					l := templatesFor(ctx, allPaths)
+					var l []string
+					if i == 0 || allPaths || thoroughTier || (sc.ID+i)%3 == 0 {
+						l = templatesFor(ctx, allPaths)
+					} else {
+						l = fixedTemplates // later points of most scenarios: the fixed list only (the walk covers every path)
+					}
 					tplLists = append(tplLists, l)
 					return l
 				}
@@ -260,7 +267,7 @@ func runScenario(sc *scenario, seed uint64, res *hx.Result, em *emitter, allPath
 		}
 		if em != nil {
 			em.addContext(sc, oa, 0, true, i)
-			if sc.ID%2 == 0 {
+			if (sc.ID%4 == 0 && i == 0) || thoroughTier {
 				em.addContext(sc, ob, 1, true, i)
 			}
 		}
@@ -356,7 +363,9 @@ func main() {
 	r := hx.NewRand(o.Seed)
 
 	em := newEmitter(o, res)
-	nScen := o.Count(60, 1500)
+	thoroughTier = o.Tier == "thorough"
+	fullJSON = thoroughTier
+	nScen := o.Count(36, 1500)
 	if v := os.Getenv("C19_SCENARIOS"); v != "" {
 		nScen, _ = strconv.Atoi(v)
 	}
